@@ -315,6 +315,8 @@ impl<'a> GeneratorState<'a> {
                 }
             }
             if self.acc_in_use { self.sasm(PLA)?; }
+            // The shifts (or the PLA) have set the flags
+            self.flags = FlagsState::Unknown;
             self.carry_flag_ok = false;
             Ok(ExprType::Nothing)
         } else {
